@@ -60,12 +60,27 @@ func c02GenExtra(rng *rand.Rand, tier string, emit func(string)) {
 		emit("obik " + hx([]byte(strings.ReplaceAll(b.String(), "\n", " "))))
 	}
 
+	// third pass, OBSERVED ONLY (no oracle, the model answers "obs"): the OBI-format title annotations (obiconvert -O)
+	// written by FormatFastSeqOBIHeader and read back by ParseFastSeqOBIHeader, one value class per case; the statistics
+	// obirt:<class>:same|changed|lost|fatal are the list quoted in lib/cfg/C02.py (outside the property: its text is about
+	// the default JSON title annotations)
+	for _, cl := range c02ObiClasses {
+		emit("obirt " + cl.name)
+	}
+
 	// command-line round trips
 	emit("cli fasta - 1 73 61 - -")
 	emit("cli fasta zs 2 73 " + hx(bytes.Repeat([]byte("acgtn"), 25)) + " - s.6b.785c227d79;i.63.3;f.66.4008000000000000 74 6163 - s.646566696e6974696f6e.7b2261223a317d")
 	emit("cli fastq x 2 73 61636774 005d5e1f i.636f756e74.9007199254740992;f.78.3ff8000000000000 74 6163 1f00 -")
 	emit("cli fastq s 1 73 61636774 - v.6d.M[7b:L[I1,T,Z,M[]],22:S5c227d,:F3ff8000000000000]")
 	emit("cli fastq zx 1 7b78 6163 2829 s.61.40")
+	emit("cli fastq sx 2 73 61636774 003f2a01 i.61.1 74 6163 3f3f -")
+	// found by seed 2 of the third pass: the file obiconvert prints for these records is taken for text/csv by the format
+	// guesser when it is given back as a file argument (finding C02-format-guess-csv, signature cli.fastq.format-guess)
+	emit("cli fastq x 4 4c4c4c4c4c4c4c4c4c4c4c4c4c4c4c4c4c4c4c4c4c4c4c4c4c4c4c4c4c4c4c4c4c4c4c4c4c4c4c4c4c4c4c4c4c4c4c4c4c4c4c4c4c4c4c4c4c4c4c4c4c4c4c4c4c4c4c4c4c4c4c4c4c4c4c4c4c4c4c4c4c4c4c4c4c4c4c4c4c4c4c4c4c4c4c4c4c4c4c4c4c4c4c4c4c4c4c4c4c4c4c4c4c4c4c4c4c4c4c4c4c4c4c4c4c4c4c4c4c4c4c4c4c4c4c4c4c4c4c4c4c4c4c4c4c4c4c4c4c4c4c4c4c4c4c4c4c4c4c4c4c4c4c4c4c4c4c4c4c4c4c4c4c4c4c4c4c4c4c4c4c4c4c4c4c4c4c4c4c4c4c4c4c4c4c4c4c4c4c4c4c4c4c4c4c4c4c4c4c4c4c4c4c4c4c4c4c4c4c4c4c4c4c4c4c4c4c4c4c4c4c4c4c4c4c4c4c4c4c4c4c4c4c4c4c4c4c4c4c4c4c4c4c4c4c4c4c4c4c4c4c4c4c4c4c4c4c4c4c4c4c4c4c4c4c4c4c4c4c4c4c4c4c4c4c4c4c4c4c4c4c4c4c4c4c4c4c4c4c4c 6374 - v.736369656e74696669635f6e616d65.Z;v.3e221f.I-322;f.7365715f6c656e677468.403d9851eb851eb8;b.6b.1;s.646566696e6974696f6e.e280aa 41 72636767617463636172746e746372746167747463676767616763746767727261747467727463746b746463636763676b746d74726363636763636772626767616776676b74636763737474636777616167616467637474647474617674646d747474676161676764736161677463676d6763746367746361 - i.323138.108;mi.61.3e7b5d31=2147483648;s.736369656e74696669635f6e616d65.;li.7365715f6c656e677468.-130 69647b317d 73616367617468726363637467676367636363637463776d6361617467636d74616174616774746167746361676167617474746761746167616879616161636761677474616763676b6167636167737474747464676779676b6761637464746167796367676363617463686167616761617267676774637463766d6d68636d7267616174 3d514b3c031e3c0a4a0ae325011f1d300d2c14e1ff1cc01e30374a522e4e5a0e5d511652451d422b4f580a572f25075db155e02c010b1a524f2029254c1f3e2f5d212410483b2d5e054b3938ff533b1e0a08e6504d4e430c254b1fff0a15153f592c0f3d264a565c020538160a56584f1a221412230352532f093a4e1f3d122b4a08d673 i.7461786964.-273 7b78 6167 0027 s.6f6269636c65616e5f776569676874.5c220000dfbf225af0908080;li.646972656374696f6e.-962,-620;s.7365715f6c656e677468.f0908080307d3d3e223b7d;b.e6bca2c285.0;v.646972656374696f6e393733.L[];s.646566696e6974696f6e.081f7d615b")
+	emit("cli fastq zsxg 1 73 6163 3f00 s.6b.785c227d79")
+	emit("cli fasta zg 2 73 " + hx(bytes.Repeat([]byte("acgtn"), 25)) + " - f.66.4008000000000000 74 6163 - -")
+	emit("cli fastq zsg 3 73 61 5d - 74 6163 005d - 75 616374 - s.61.7b")
 	n := 24
 	if tier == "thorough" {
 		n = 160
@@ -79,20 +94,38 @@ func c02GenExtra(rng *rand.Rand, tier string, emit func(string)) {
 		if rng.Intn(2) == 0 {
 			flags += "s"
 		}
-		// --solexa only with a file argument: stdin is read by the C reader (kseq, property C17), which drops quality
-		// bytes above 127 (offset 64 + quality >= 64) — see the report of the second deepening round
-		if fm == "fastq" && !strings.Contains(flags, "s") && rng.Intn(2) == 0 {
+		// --solexa: with a file argument every quality 0..93; through stdin (flag s) the file is read by the C reader
+		// (kseq, property C17), which keeps the quality bytes 33..127 only: offset 64 + quality >= 64 makes it stop with
+		// "quality string shorter than its sequence" (notes/patches/C02-kseq-highbyte.note) — the qualities of these
+		// cases are reduced modulo 64 below (64 + 63 = 127 is the last byte kseq accepts)
+		if fm == "fastq" && rng.Intn(2) == 0 {
 			flags += "x"
+		}
+		// third pass: g = the second pass reads the gzip bytes the first pass printed (-Z output fed back unchanged,
+		// as a file argument named .gz or through stdin)
+		if strings.Contains(flags, "z") && rng.Intn(2) == 0 {
+			flags += "g"
 		}
 		if flags == "" {
 			flags = "-"
 		}
+		lowQ := strings.Contains(flags, "s") && strings.Contains(flags, "x")
 		nr := 1 + rng.Intn(6)
 		var recs []string
 		for len(recs) < nr {
 			r := c02RandRecord(rng, fm == "fastq" && rng.Intn(10) != 0)
 			if strings.Fields(r)[1] == "-" {
 				continue // empty sequence: the writer Fatalf's (outside the property)
+			}
+			if lowQ {
+				w := strings.Fields(r)
+				if qb, ok := unhx(w[2]); ok && w[2] != "-" {
+					for k := range qb {
+						qb[k] %= 64
+					}
+					w[2] = hx(qb)
+					r = strings.Join(w, " ")
+				}
 			}
 			recs = append(recs, r)
 		}
@@ -180,7 +213,19 @@ func c02Command() (string, error) {
 
 // c02RunCli runs obiconvert on text (file argument or stdin) and returns what it printed (gunzipped when -Z)
 func c02RunCli(bin, dir, name string, text []byte, solexa, z, stdin bool) ([]byte, string) {
+	b, _, e := c02RunCliRaw(bin, dir, name, text, solexa, z, stdin)
+	return b, e
+}
+
+// c02RunCliRaw: the same, and the bytes as they were printed (the gzip stream when -Z)
+// c02ForceFormat: "" = let the command guess the format, "fasta" / "fastq" = pass --fasta / --fastq
+var c02ForceFormat string
+
+func c02RunCliRaw(bin, dir, name string, text []byte, solexa, z, stdin bool) ([]byte, []byte, string) {
 	args := []string{"--no-progressbar"}
+	if c02ForceFormat != "" {
+		args = append(args, "--"+c02ForceFormat)
+	}
 	if solexa {
 		args = append(args, "--solexa")
 	}
@@ -193,7 +238,7 @@ func c02RunCli(bin, dir, name string, text []byte, solexa, z, stdin bool) ([]byt
 	} else {
 		p := filepath.Join(dir, name)
 		if err := os.WriteFile(p, text, 0o644); err != nil {
-			return nil, "io"
+			return nil, nil, "io"
 		}
 		args = append(args, p)
 	}
@@ -203,31 +248,32 @@ func c02RunCli(bin, dir, name string, text []byte, solexa, z, stdin bool) ([]byt
 	cmd.Stdout = &out
 	cmd.Stderr = &errb
 	if err := cmd.Start(); err != nil {
-		return nil, "start"
+		return nil, nil, "start"
 	}
 	done := make(chan error, 1)
 	go func() { done <- cmd.Wait() }()
 	select {
 	case err := <-done:
 		if err != nil {
-			return nil, "exit:" + strings.ReplaceAll(lastLine(errb.String()), " ", "_")
+			return nil, nil, "exit:" + strings.ReplaceAll(lastLine(errb.String()), " ", "_")
 		}
 	case <-time.After(30 * time.Second):
 		cmd.Process.Kill()
-		return nil, "hang"
+		return nil, nil, "hang"
 	}
+	raw := append([]byte(nil), out.Bytes()...)
 	if z {
 		zr, err := gzip.NewReader(&out)
 		if err != nil {
-			return nil, "gunzip"
+			return nil, nil, "gunzip"
 		}
 		b, err := io.ReadAll(zr)
 		if err != nil {
-			return nil, "gunzip"
+			return nil, nil, "gunzip"
 		}
-		return b, ""
+		return b, raw, ""
 	}
-	return out.Bytes(), ""
+	return raw, raw, ""
 }
 
 func lastLine(s string) string {
@@ -242,11 +288,12 @@ func lastLine(s string) string {
 func c02ExecCli(c string, f []string, fail func(sig, format string, a ...any), fails *[]Fail) (string, []Fail) {
 	fm, flags := f[1], f[2]
 	nr, e := strconv.Atoi(f[3])
-	if (fm != "fasta" && fm != "fastq") || e != nil || nr < 1 || len(f) != 4+4*nr || strings.Trim(flags, "zsx-") != "" {
+	if (fm != "fasta" && fm != "fastq") || e != nil || nr < 1 || len(f) != 4+4*nr || strings.Trim(flags, "zsxg-") != "" {
 		return "bad-op", nil
 	}
 	z, stdin, solexa := strings.Contains(flags, "z"), strings.Contains(flags, "s"), strings.Contains(flags, "x")
-	if solexa && fm != "fastq" {
+	gzIn := strings.Contains(flags, "g")
+	if solexa && fm != "fastq" || gzIn && !z {
 		return "bad-op", nil
 	}
 	type recT struct {
@@ -310,14 +357,48 @@ func c02ExecCli(c string, f []string, fail func(sig, format string, a ...any), f
 	defer os.RemoveAll(dir)
 	ext := map[string]string{"fasta": ".fasta", "fastq": ".fastq"}[fm]
 	stat("cli:" + fm + ":" + flags)
-	t1, e1 := c02RunCli(bin, dir, "in0"+ext, []byte(t0), solexa, z, stdin)
+	t1, raw1, e1 := c02RunCliRaw(bin, dir, "in0"+ext, []byte(t0), solexa, z, stdin)
 	res := "w=" + hx([]byte(t0))
+	// the format guesser (OBIMimeTypeGuesser, property C01) can take a FASTA/FASTQ file whose title annotations hold
+	// commas and quotes for text/csv: when the run fails (or prints something else) without --fasta/--fastq but is right
+	// with it, the failure is reported under its own signature and the round trip goes on with the format forced
+	guessWrong := func(name string, in []byte, sol, viaStdin bool, bad []byte, e string) ([]byte, []byte, string, bool) {
+		if viaStdin {
+			return nil, nil, e, false
+		}
+		c02ForceFormat = fm
+		b, raw, e2 := c02RunCliRaw(bin, dir, name, in, sol, z, viaStdin)
+		c02ForceFormat = ""
+		if e2 != "" || (e == "" && bytes.Equal(b, bad)) {
+			return nil, nil, e, false
+		}
+		stat("cli:format-guess-wrong")
+		fail("cli."+fm+".format-guess", "obiconvert without --%s on the file %q: %s; with --%s it prints the expected text", fm, in, map[bool]string{true: "wrong output", false: e}[e == ""], fm)
+		return b, raw, "", true
+	}
+	if e1 != "" || (!solexa && string(t1) != t0) {
+		if b, raw, e, ok := guessWrong("in0"+ext, []byte(t0), solexa, stdin, t1, e1); ok {
+			t1, raw1, e1 = b, raw, e
+		}
+	}
 	if e1 != "" {
 		fail("cli."+fm+".run1-"+strings.SplitN(e1, ":", 2)[0], "obiconvert on %q: %s", t0, e1)
 		return res + " t1=" + strings.SplitN(e1, ":", 2)[0], *fails
 	}
 	res += " t1=" + hx(t1)
-	t2, e2 := c02RunCli(bin, dir, "in1"+ext, t1, false, z, stdin)
+	in2, name2 := t1, "in1"+ext
+	if gzIn {
+		in2, name2 = raw1, "in1"+ext+".gz"
+		if len(raw1) < 2 || raw1[0] != 0x1f || raw1[1] != 0x8b {
+			fail("cli."+fm+".not-gzip", "-Z output does not start with the gzip magic: % x", raw1[:min(len(raw1), 8)])
+		}
+	}
+	t2, e2 := c02RunCli(bin, dir, name2, in2, false, z, stdin)
+	if !gzIn && (e2 != "" || !bytes.Equal(t2, t1)) {
+		if b, _, e, ok := guessWrong(name2, in2, false, stdin, t2, e2); ok {
+			t2, e2 = b, e
+		}
+	}
 	if e2 != "" {
 		fail("cli."+fm+".run2-"+strings.SplitN(e2, ":", 2)[0], "obiconvert on its own output %q: %s", t1, e2)
 		return res + " t2=" + strings.SplitN(e2, ":", 2)[0], *fails
@@ -375,4 +456,63 @@ func c02ExecCli(c string, f []string, fail func(sig, format string, a ...any), f
 		}
 	}
 	return res, *fails
+}
+
+// ---------------------------------------------------------------- obirt (observed only)
+
+var c02ObiClasses = []struct {
+	name string
+	key  string
+	v    interface{}
+}{
+	{"int", "k", 3}, {"int-negative", "k", -12}, {"int-2p53", "k", 1 << 53}, {"float-integral", "k", 3.0}, {"float-nonintegral", "k", 1.5},
+	{"float-small-e", "k", 1e-7}, {"float-big-e", "k", 1e21}, {"bool-true", "k", true}, {"bool-false", "k", false},
+	{"string-plain", "k", "abc"}, {"string-blank-inside", "k", "a b"}, {"string-blank-around", "k", " a "}, {"string-empty", "k", ""},
+	{"string-semicolon", "k", "a;b"}, {"string-equal", "k", "a=b"}, {"string-key-like", "k", "x y=1"}, {"string-quote", "k", "a\"b"},
+	{"string-apostrophe", "k", "a'b"}, {"string-digits", "k", "12"}, {"string-true", "k", "true"}, {"string-T", "k", "T"},
+	{"string-brace", "k", "{a}"}, {"string-json-object", "k", "{\"a\":1}"}, {"string-unicode", "k", "é漢"},
+	{"map-string-int", "merged_k", map[string]int{"a": 1, "b": 2}}, {"map-string-int-other-key", "k", map[string]int{"a": 1}},
+	{"map-string-string", "k_status", map[string]string{"a": "x"}}, {"map-string-string-apostrophe", "k_status", map[string]string{"a": "x'y"}},
+	{"map-string-string-semicolon", "k_status", map[string]string{"a": "x;y"}},
+	{"map-interface", "k", map[string]interface{}{"a": 1.5, "b": "x", "c": true}}, {"map-empty", "k", map[string]interface{}{}},
+	{"list-int", "k", []int{1, 2}}, {"list-interface", "k", []interface{}{1.0, "x"}}, {"nil", "k", nil},
+	{"key-with-blank", "a b", 1}, {"key-digit-first", "1k", 1}, {"key-dash-dot", "a-b.c_d", 1}, {"two-keys", "k", "second-key"},
+	{"definition-only", "definition", "some text"}, {"definition-key-like", "definition", "x=1; rest"},
+}
+
+func c02ExecObirt(f []string) string {
+	for _, cl := range c02ObiClasses {
+		if cl.name != f[1] {
+			continue
+		}
+		var out string
+		res := guardT(5*time.Second, func() string {
+			s := obiseq.NewBioSequence("x", []byte("a"), "")
+			s.Annotations()[cl.key] = cl.v
+			if cl.name == "two-keys" {
+				s.Annotations()["a"] = 1
+			}
+			want := c02Dump(map[string]interface{}(s.Annotations()))
+			h := obiformats.FormatFastSeqOBIHeader(s)
+			s2 := obiseq.NewBioSequence("x", []byte("a"), h)
+			obiformats.ParseFastSeqOBIHeader(s2)
+			got := c02Dump(map[string]interface{}(s2.Annotations()))
+			_, has := s2.Annotations()[cl.key]
+			switch {
+			case want == got:
+				out = "same"
+			case !has:
+				out = "lost"
+			default:
+				out = "changed"
+			}
+			return "ok"
+		})
+		if res != "ok" {
+			out = res
+		}
+		stat("obirt:" + cl.name + ":" + out)
+		return "obs"
+	}
+	return "bad-op"
 }
